@@ -89,12 +89,14 @@ theorem sendUnrestricted_spec (led0 : Ledger) (b b' : Bank) (src dst : Addr) (cs
         have ⟨c1, c2⟩ := creditAll_spec led0 dst c src cs _ d1 hpos
         exact ⟨c1, d2.trans c2⟩
 
-theorem sendCoins_spec (led0 : Ledger) (b b' : Bank) (src dst : Addr) (cs : Coins) (c : Cause)
-    (hb : BankBal led0 b) (h : sendCoins b src dst cs c = .ok b') :
+theorem sendCoins_spec (led0 : Ledger) (r : Bool) (b b' : Bank) (src dst : Addr) (cs : Coins) (c : Cause)
+    (hb : BankBal led0 b) (h : sendCoins r b src dst cs c = .ok b') :
     BankBal led0 b' ∧ NewEvents b b' c src := by
   unfold sendCoins at h
   split at h
   · cases h; exact ⟨hb, NewEvents.refl b c src⟩
-  · exact sendUnrestricted_spec led0 b b' src dst cs c hb h
+  · split at h
+    · cases h
+    · exact sendUnrestricted_spec led0 b b' src dst cs c hb h
 
 end GnoVerif.C08
